@@ -720,6 +720,10 @@ pub fn check_step(s: &Step, tr: &mut Tracker, viols: &mut Vec<Viol>) -> Decides 
     let mut unchanged = state_must_be_unchanged;
     if s.op.kind.is_shared_ref_op() {
         unchanged |= C19;
+        if matches!(s.op.kind, OpKind::IterScript { .. }) {
+            // "borrowing iterators change nothing"
+            unchanged |= C12;
+        }
         if matches!(s.op.kind, OpKind::CloneTo) {
             unchanged |= C14;
         }
